@@ -286,6 +286,17 @@ func C02(c *core.Ctx) {
 	c02AliasedWorkingValue(c)
 	c02EveryLineMapped(c)
 	c02WorkingPrecision(c)
+	c.Rule("C02-R12", "the percentage a rate key stands for on a date is the table value in force on that date, its first day included (shared with C12-R1)", 5)
+	{
+		sub := core.NewCtx("C12", c.Tier, c.Seed, c.P, c.VerifDir)
+		sub.Quiet = true
+		c12Value(sub)
+		for _, o := range sub.Obligations() {
+			if o.Rule == "C12-R1" {
+				c.ObAt("C02-R12", o.Key, o.Pos, o.OK, o.Msg)
+			}
+		}
+	}
 	// R11: the summary is rebuilt from the lines on every calculation; a totals member the
 	// calculation sets only under a condition (tax_included, taxes, discount, charge…) must be
 	// cleared first, or the previous run's figure stays beside the new lines
